@@ -22,12 +22,13 @@ CONFIGS = {
     'debug':  ['-mavx2', '-UNDEBUG', '-DUNODB_DETAIL_WITH_STATS', '-DUNODB_SPINLOCK_LOOP_VALUE=1'],
     'ssedebug': ['-msse4.1', '-UNDEBUG', '-DUNODB_DETAIL_WITH_STATS', '-DUNODB_SPINLOCK_LOOP_VALUE=1'],
     'nostats': ['-mavx2', '-DNDEBUG', '-DUNODB_SPINLOCK_LOOP_VALUE=1'],
+    'nsdebug': ['-mavx2', '-UNDEBUG', '-DUNODB_SPINLOCK_LOOP_VALUE=1'],
     'spin0':  ['-mavx2', '-DNDEBUG', '-DUNODB_DETAIL_WITH_STATS', '-DUNODB_SPINLOCK_LOOP_VALUE=0'],
 }
 
 DEFAULT_NOINLINE = [r'@_ZN?K?5unodb6detail14basic_node_ptr[^(]*(7tag_ptr|4typeEv|3ptrI)']
 EXTERN_C = ['in_u64', 'in_u32', 'in_u16', 'in_u8', 'verif_observe', 'verif_witness', 'verif_fail_alloc_at',
-            'verif_alloc_count', 'verif_live_allocs', 'verif_live_bytes', 'verif_mutex_held']
+            'verif_alloc_count', 'verif_live_allocs', 'verif_live_bytes', 'verif_mutex_held', 'verif_yield_arm', 'verif_yield_disarm', 'verif_yield_fired', 'verif_yield_seen']
 
 
 class BuildError(Exception):
@@ -56,7 +57,7 @@ class Unit:
 
     def __init__(self, src, config='base', defines=(), stubs=None, noinline=(), threads=False,
                  max_node_type=None, nondet_init=False, extra_glue=(), assume_as_assert=False, extern_c=(),
-                 alwaysinline=(), opt_level='-O1', cdefs=(), entry_hooks=()):
+                 alwaysinline=(), opt_level='-O1', cdefs=(), entry_hooks=(), yield_in=None):
         self.src = src if os.path.isabs(src) else os.path.join(VERIF, 'harness', src)
         self.config = config
         self.defines = list(defines)
@@ -72,8 +73,9 @@ class Unit:
         self.opt_level = opt_level
         self.cdefs = list(cdefs)
         self.entry_hooks = [list(x) for x in entry_hooks]
+        self.yield_in = yield_in
         key = json.dumps([self.src, config, self.defines, self.stubs, self.noinline, self.alwaysinline, threads, max_node_type,
-                          nondet_init, self.extra_glue, assume_as_assert, self.extern_c, opt_level, self.cdefs, self.entry_hooks], sort_keys=True)
+                          nondet_init, self.extra_glue, assume_as_assert, self.extern_c, opt_level, self.cdefs, self.entry_hooks, yield_in], sort_keys=True)
         self.key = os.path.splitext(os.path.basename(src))[0] + '-' + config + '-' + hashlib.sha1(key.encode()).hexdigest()[:8]
         self.built = False
         self.info = {}
@@ -115,7 +117,7 @@ class Unit:
         t1 = time.time()
         mod = irparse.parse_module(open(ll).read())
         opts = types.SimpleNamespace(threads=self.threads, strict=True, assume_as_assert=self.assume_as_assert, only=None,
-                                     extern_c=EXTERN_C + self.extern_c, stubs=self.stubs, max_node_type=self.max_node_type, entry_hooks=self.entry_hooks)
+                                     extern_c=EXTERN_C + self.extern_c, stubs=self.stubs, max_node_type=self.max_node_type, entry_hooks=self.entry_hooks, yield_in=self.yield_in)
         c = ir2c.translate(mod, opts)
         if self.nondet_init:
             c = '#define IR2C_NONDET_INIT 1\n' + c
@@ -128,7 +130,7 @@ class Unit:
         self.dem = ir2c.demangle([ir2c.cname(n) for n in mod.funcs])
         self.info = {'ir_sha': hashlib.sha1(open(ll, 'rb').read()).hexdigest()[:12], 'ir_lines': sum(1 for _ in open(ll)),
                      'clang_s': round(t1 - t0, 2), 'ir2c_s': round(time.time() - t1, 2), 'stubbed': sorted(set(ir2c.CX_STUBBED)),
-                     'pruned_switch_cases': ir2c.CX_PRUNED, 'noinline_tagged': ntag, 'entry_hooked': sorted(set(ir2c.CX_HOOKED))}
+                     'pruned_switch_cases': ir2c.CX_PRUNED, 'noinline_tagged': ntag, 'entry_hooked': sorted(set(ir2c.CX_HOOKED)), 'yield_points': ir2c.CX_NYIELD}
         self.built = True
         return cfile
 
